@@ -313,3 +313,5 @@ def check(case: dict[str, Any], rec: Any) -> None:
 
 
 FINDINGS: dict[str, Any] = {}
+
+LEVEL_NOTE += ' Rounds 13-14: one set object re-targeted from request to request; actor stopped and started again mid-schedule.'
